@@ -47,7 +47,7 @@ def gen_coords(rng, n):
             if ideal:
                 while True:
                     p = Q.rsphere(rng, dim)
-                    if p[0] != 1:   # not the half-space point at infinity
+                    if p[0] <= F(9, 10):   # at bounded distance from the half-space point at infinity
                         break
             else:
                 p = Q.rball(rng, dim)
@@ -121,6 +121,10 @@ def judge_coords(inp, obs, lr):
             mv = Q.decf(res["ok"])
             iv = np.array(obs[m][i])
             tol = 1e-6 if inp["ideal"] else 1e-9
+            if inp["ideal"] and m == "halfspace":
+                # ideal points lose half their digits in kleinian_to_poincare (sqrt of a rounding error) and the
+                # half-space chart amplifies that by ~(1+|h|^2) near its point at infinity
+                tol = 1e-6 * (1 + float(np.max(np.abs(mv))) ** 2)
             if m == "projective" or (m == "hyperboloid" and inp["ideal"]):
                 ok = proj_close(iv, mv, tol)   # lightlike vectors have no hyperboloid normalisation; only the ray matters
             else:
